@@ -7,7 +7,10 @@
 class Refined_ZoniShiftedGyro_CzarnyGeometry : public SourceTerm
 {
 public:
-    Refined_ZoniShiftedGyro_CzarnyGeometry() = default;
+    Refined_ZoniShiftedGyro_CzarnyGeometry()
+    {
+        initializeGeometry();
+    }
     explicit Refined_ZoniShiftedGyro_CzarnyGeometry(const double& Rmax, const double& inverse_aspect_ratio_epsilon,
                                                     const double& ellipticity_e);
     virtual ~Refined_ZoniShiftedGyro_CzarnyGeometry() = default;
